@@ -24,7 +24,7 @@ environment then does) and by search-only conditions over a symbolic name string
 import re
 from typing import List
 
-from jinja2 import DictLoader, Environment, nodes, select_autoescape
+from jinja2 import DebugUndefined, DictLoader, Environment, nodes, select_autoescape
 from jinja2.filters import FILTERS
 from jinja2.tests import TESTS
 from vfw.core import Cond, pick, pickb
@@ -232,8 +232,13 @@ G["ops"] = [B(s) for s in [
     '{% set j = joiner(@) %}[{{ j() }}{{ j() }}{{ j() }}]', '{% set c = cycler(@, "a") %}[{{ c.next() }}{{ c.current }}{{ c.next() }}]',
     "[{{ dict(k=@) }}]", "[{{ dict(k=@).k ~ namespace(v=@).v }}]", '[{{ lipsum(1, false, 2, 3) ~ @ }}]', "[{{ range(2)|join(@) }}]",
     "[{{ @ ~ (1 + n) ~ (n - 1) ~ (2 ** n) ~ (7 // 2) ~ (7 % 4) ~ (1 / 2) ~ (-n) }}]",
+    # failed lookups whose key / name is the subject (an undefined value may describe what was looked up)
+    "[{{ {}[@] }}]", '[{{ {"k": 1}[@] }}]', "[{{ {}[@] ~ @ }}]", "[{{ [{}[@]]|join(@) }}]", "[{{ none[@] }}]", "[{{ ({}|attr(@)) }}]", "[{{ [1][n + 5] ~ {}[@] }}]",
 ]]
 G["struct"] = [B(s, k, t) for s, k, t in [
+    # block bodies are compiled as separate functions (D5: a block inside an enabling region of a non-escaping template)
+    ("{% block bb %}[{{ @ }}{{ {}[@] }}]{% endblock %}", "", "D5"),
+    ("{% block bb %}{% macro bm(x) %}[{{ x }}]{% endmacro %}{{ bm(@) }}{% endblock %}{{ self.bb() }}", "", "D5"),
     ('{% macro m(x, y=@) %}[{{ x }}:{{ y }}]{% endmacro %}{{ m(@) }}-{{ m("a") }}-{{ m(y="a", x=@) }}', "", ""),
     ('{% macro m(x) %}[{{ x }}]{% endmacro %}{{ m(@) ~ m(@) }}-{{ @ ~ m("a") }}-{{ m("a") ~ @ }}-{{ m(m(@)) }}-{{ m(@) + @ }}-{{ @ + m(@) }}', "", ""),
     ('{% macro m() %}[{{ varargs|join(@) }}:{{ kwargs }}:{{ varargs }}]{% endmacro %}{{ m(@, @, k=@) }}', "", ""),
@@ -326,11 +331,11 @@ HELPERS = {
 
 # ------------------------------------------------------------------------------------------------ wrappers
 class W:
-    def __init__(self, name, autoescape, pre="", post="", is_async=False, tname=None, newstyle=True, volatile_off=False, doc=""):
+    def __init__(self, name, autoescape, pre="", post="", is_async=False, tname=None, newstyle=True, volatile_off=False, doc="", **envkw):
         self.name, self.pre, self.post, self.is_async, self.tname, self.volatile_off, self.doc = name, pre, post, is_async, tname, volatile_off, doc
         hpre, hpost = pre.replace(" flag ", " gflag "), post
         self.env = Environment(autoescape=autoescape, enable_async=is_async, extensions=["jinja2.ext.i18n", "jinja2.ext.do", "jinja2.ext.loopcontrols"],
-                               loader=DictLoader({k: apply_marks(v, hpre, hpost) for k, v in HELPERS.items()}), cache_size=0)
+                               loader=DictLoader({k: apply_marks(v, hpre, hpost) for k, v in HELPERS.items()}), cache_size=0, **envkw)
         self.env.install_null_translations(newstyle=newstyle)
         self.env.globals["gflag"] = True
         self.cache = {}
@@ -373,6 +378,9 @@ WRAPPERS = {w.name: w for w in [
     W("blk_flag", False, _AF, _EA, volatile_off=True, doc="{% autoescape flag %} (flag=True from the context) in Environment(autoescape=False)"),
     W("blk_flag_on", True, _AF, _EA, newstyle=False, doc="{% autoescape flag %} (flag=True) in Environment(autoescape=True)"),
     W("async_flag", False, _AF, _EA, is_async=True, volatile_off=True, doc="{% autoescape flag %} in Environment(autoescape=False, enable_async=True)"),
+    W("debug_undef", True, undefined=DebugUndefined, newstyle=False, doc="Environment(autoescape=True, undefined=DebugUndefined): undefined values print their description"),
+    W("sel_nostr", select_autoescape(enabled_extensions=("html",), default_for_string=False, default=False), tname="page.html",
+      doc="select_autoescape(default_for_string=False) by name 'page.html': only the template name enables escaping"),
     W("after_off", True, "{% autoescape off %}({{ u }}){% endautoescape %}", "", doc="body follows a closed runtime-decided disabled region, Environment(autoescape=True)"),
 ]}
 
@@ -442,9 +450,10 @@ def _noisy(w, body, b1, n):
             t = w.cache.get(body.src)
             if t is None:
                 t = w.cache[body.src] = w.compile(body.src.replace("@", "u"))
-            r = leak(w.render(t, dict(u="a", b1=b1, n=n, flag=True, off=False, none=None)), body.kind)
+            o = w.render(t, dict(u="a", b1=b1, n=n, flag=True, off=False, none=None))
+            r = residue(o, body.kind) if leak(o, body.kind) else None
         except Exception:
-            r = False
+            r = None
         w.noisy[key] = r
     return r
 
@@ -476,11 +485,20 @@ def check_body(w, body, s, b1, n, literal):
             t = w.cache[body.src] = w.compile(body.src.replace("@", "u"))
     if isinstance(t, Exception):
         return 0          # e.g. compile-time folding raised: nothing is output
-    if _noisy(w, body, b1, n):
-        return 0
+    base = _noisy(w, body, b1, n)
     try:
         out = w.render(t, dict(u=s, b1=b1, n=n, flag=True, off=False, none=None))
     except Exception:
+        return 0
+    if base is not None:
+        # the body prints raw metacharacters of its own even for the neutral data 'a' (e.g. the quotes of a Python repr marked
+        # safe); quotes and ampersands then also multiply with the length of the escaped text, but a raw angle bracket can only be
+        # the data's own
+        r = residue(out, body.kind)
+        for c in "<>":
+            if c in s and r.count(c) > base.count(c):
+                raise Leak("wrapper=%s (%s) template=%r u=%r b1=%r n=%r output=%r (raw %r beyond what the body prints for neutral data)" % (
+                    w.name, w.doc, apply_marks(t_src(body, s, literal), w.pre, w.post), s, b1, n, out, c))
         return 0
     if leak(out, body.kind):
         raise Leak("wrapper=%s (%s) template=%r u=%r b1=%r n=%r output=%r" % (w.name, w.doc, apply_marks(t_src(body, s, literal), w.pre, w.post), s, b1, n, out))
